@@ -118,6 +118,23 @@ theorem buffer_get_records_change {w : World} (p : Pid) {b : Nat} {x : Buf} (hx 
       y.hist = x.hist.push (((x.level - rem : Nat) : Int), w.now) ∧ y.level = x.level - rem :=
   bufGet_records p hx rem got hge hrec
 
+/-- **no change goes unrecorded**: between any two reachable states in which an object (here: a buffer; the statement is
+    generic, `RecOK.change_recorded`) is recording, a different level means a different history — so the step function
+    defined by the history cannot miss a change of the true trajectory -/
+theorem buffer_change_is_recorded {w w' : World} (hi : HistInv w) (hi' : HistInv w') {b : Nat} {x x' : Buf}
+    (hx : w.bufs[b]? = some x) (hx' : w'.bufs[b]? = some x') (hr : x.recording = true) (hr' : x'.recording = true)
+    (hv : x.level ≠ x'.level) : x.hist ≠ x'.hist :=
+  RecOK.change_recorded bufOps (hi.2.2.2.1 b x hx) (hi'.2.2.2.1 b x' hx') hr hr' (by
+    show (x.level : Int) ≠ (x'.level : Int)
+    omega)
+
+theorem pool_change_is_recorded {w w' : World} (hi : HistInv w) (hi' : HistInv w') {pl : Nat} {x x' : Pool}
+    (hx : w.pools[pl]? = some x) (hx' : w'.pools[pl]? = some x') (hr : x.recording = true) (hr' : x'.recording = true)
+    (hv : x.inUse ≠ x'.inUse) : x.hist ≠ x'.hist :=
+  RecOK.change_recorded poolOps (hi.2.2.1 pl x hx) (hi'.2.2.1 pl x' hx') hr hr' (by
+    show (x.inUse : Int) ≠ (x'.inUse : Int)
+    omega)
+
 /-! ### the time-weighted mean computed from a history is the exact time average -/
 
 /-- for samples (x₀,t₀),…,(xₙ,tₙ) with nondecreasing times, the running weighted mean with weights tᵢ₊₁ − tᵢ (updated
